@@ -128,3 +128,29 @@ Theorem C01_bound_names_never_raise_name_error : forall sm args e,
   eval_sym sm args e <> ENameErr.
 Proof. exact bound_names_no_nameerr. Qed.
 Print Assumptions C01_bound_names_never_raise_name_error.
+
+(* ---------- the decision procedure of one axis-by-axis comparison, REGENERATED FROM THE SOURCE ----------
+   translator/tr_pyl.py turns the AST of jaxtyping/_array_types.py:_check_dims into a term of the deep embedding
+   model/PyL.v on every run (gen/CheckDimsSrc.v); interpreting that term computes model/Check.v's check_dims -- same
+   verdict, same exception, same single-axis bindings, partial progress included -- for every list of (non-variadic) dims,
+   every shape of the same length, every state of the bindings and every '?' label.  So the theorems above about check_dims
+   are theorems about what the source says now (Python's eval of a symbolic axis is the model's eval_sym; messages are
+   abstracted to empty / non-empty). *)
+From JT Require Import model.PyL gen.CheckDimsSrc proofs.PyLFacts.
+Theorem C01_check_dims_source_refines_model : forall lbl st args dl sh sm env,
+  good args env sm -> env "cls_dims" = Some (VDims dl) -> env "obj_shape" = Some (VZs sh) ->
+  length dl = length sh -> forallb (fun d => negb (is_variadic d)) dl = true ->
+  match check_dims lbl st args dl sh sm with
+  | (COk, sm') => exists env2, run_body lbl st check_dims_src env = OReturn (VS "") env2 /\ good args env2 sm'
+  | (CFail, sm') => exists env2, run_body lbl st check_dims_src env = OReturn (VS "msg") env2 /\ good args env2 sm'
+  | (CRaise e, sm') => exists env2, run_body lbl st check_dims_src env = ORaise e env2 /\ good args env2 sm'
+  end.
+Proof. exact check_dims_src_refines_model. Qed.
+Print Assumptions C01_check_dims_source_refines_model.
+
+Example C01_check_dims_source_nonvacuous :
+  run_src check_dims_src None [("a+1", EBin OAdd (EVar "a") (EInt 1))] "a #b 3 a+1" [2; 1; 3; 3]%Z [("b", 7%Z)] [] = "ret: {b=7,a=2}" /\
+  run_src check_dims_src None [] "a b a" [2; 3; 4]%Z [] [] = "ret:msg {a=2,b=3}" /\
+  run_src check_dims_src (Some "(Leaf 0 in structure T) ") [] "?a" [5]%Z [] [] = "ret: {(Leaf 0 in structure T) a=5}" /\
+  run_src check_dims_src None [] "?a" [5]%Z [] [] = "raise:AnnotationError {}".
+Proof. vm_compute. repeat split. Qed.
